@@ -7,7 +7,10 @@
 class PolarR6_Zoni_CzarnyGeometry : public SourceTerm
 {
 public:
-    PolarR6_Zoni_CzarnyGeometry() = default;
+    PolarR6_Zoni_CzarnyGeometry()
+    {
+        initializeGeometry();
+    }
     explicit PolarR6_Zoni_CzarnyGeometry(const double& Rmax, const double& inverse_aspect_ratio_epsilon,
                                          const double& ellipticity_e);
     virtual ~PolarR6_Zoni_CzarnyGeometry() = default;
